@@ -366,6 +366,17 @@ namespace sim
     return v;
   }
 
+  bool thorough()
+  {
+    auto it = W->st.cfg.find("thorough");
+    if(it != W->st.cfg.end()) return it->second != 0;
+    long long v;
+    if(W->opt.replay) { auto jt = W->opt.cfg_in.find("thorough"); v = (jt != W->opt.cfg_in.end() && jt->second != 0) ? 1 : 0; }
+    else { const char* t = getenv("VERIF_TIER"); v = (t != nullptr && strcmp(t, "thorough") == 0) ? 1 : 0; }
+    W->st.cfg["thorough"] = v;
+    return v != 0;
+  }
+
   long long cfg_weighted(const char* name, const std::vector<int>& weights)
   {
     long long v;
